@@ -4,7 +4,7 @@
    holds the frame and state of the save that wrote it; exec fails on a Save that names another
    frame than the game's, on a Load that is not earlier, or whose cell does not hold the state saved
    for that frame on the current timeline). *)
-From GGRS Require Import Base Consts Queue Sync P2P Session SessionProofs SessionProgress SessionSparse.
+From GGRS Require Import Base Consts Queue Sync P2P Session SessionProofs SessionProgress SessionSparse SessionSparse2.
 Open Scope Z_scope.
 
 (* For EVERY operation sequence (local inputs, remote inputs, gossip, endpoint disconnects,
@@ -117,3 +117,28 @@ Example C02_demo_sparse :
     [[]; [(0,0);(2,0)]; []; [(2,0)]; []; []; []; [(1,0);(2,0);(0,1);(2,0);(2,0)]].
 Proof. eexists. eexists. split; vm_compute; reflexivity. Qed.
 
+
+(* The same, unconditionally, for SPARSE SAVING (SessionBuilder::with_sparse_saving_mode) - the mode whose
+   rollback loads `last_saved_frame` instead of the first incorrect frame and which carries asserts of its
+   own (first_incorrect >= frame_to_load, load inside the window, the saved cell holds that frame,
+   last_saved == min(confirmed, current) after a forced save): inside C01's space NO assert of the session
+   core fires for ANY operation sequence, and the request lists of the whole run execute one after the other. *)
+Theorem C02_no_assert_fires_in_space_sparse :
+  forall (predict : Z -> Z) (n w d : Z) (kinds : list pkind) (eps : list (list Z)) (nspec : nat) (ops : list sop),
+  1 <= w -> 0 <= d -> w + d + 3 <= INPUT_QUEUE_LENGTH -> 0 < n -> Z.of_nat (length kinds) = n -> players_only kinds ->
+  let p0 := session_start n w true d kinds eps nspec in
+  srun_in predict p0 ops = Err \/
+  exists p outs g, srun_in predict p0 ops = Ok (p, outs) /\ srun predict p0 ops = Ok (p, outs) /\
+    exec_outs w (game0 w) outs = Some g /\ gframe g = s_current (ps_sync p).
+Proof.
+  intros predict n w d kinds eps nspec ops Hw Hd Hcap Hn Hlen Hpl p0.
+  destruct (sparse_run_in_space predict ops p0 _ (game0 w) w d (QS_start_gen true n w d kinds eps nspec Hw Hd Hcap Hn Hlen Hpl)
+              (JS_start n w d kinds eps nspec Hw) (SX_start n w d kinds eps nspec)) as [E|(p & outs & gs & g & E1 & E2 & Ex & _ & HJ & _)].
+  - left. exact E.
+  - right. exists p, outs, g. split; [exact E1|]. split; [exact E2|]. split; [exact Ex|apply (js_frame _ _ _ HJ)].
+Qed.
+
+(* non-vacuity: the sparse demo run above lies inside the space *)
+Example C02_demo_sparse_in_space :
+  exists r, srun_in (fun x => x) (session_start 2 2 true 0 [KLocal; KRemote 0] [[1]] 0) c02_demo_ops = Ok r.
+Proof. eexists. vm_compute. reflexivity. Qed.
